@@ -86,6 +86,12 @@ RUN_DNS = {
             [H(False, ["h2", "http/1.1"]), H(True, ["h3-29", "h2"])], []],
     "FirstMatchOnly": False,
 }
+RUN_BIG = {      # thorough tier: everything in one history (exhaustive without dump + simulated behaviours)
+    "Reqs": RUN_STICKY["Reqs"] + RUN_REWRITE["Reqs"],
+    "StickyVals": RUN_STICKY["StickyVals"] + [F("priv", neg=True), F("host", 2), F("hasauth", neg=True)],
+    "BlockVals": RUN_STICKY["BlockVals"] + RUN_REWRITE["BlockVals"],
+    "BoolOpts": frozenset({"anticache", "anticomp", "strip_ech", "http3"}), "Dns": RUN_DNS["Dns"], "FirstMatchOnly": False,
+}
 RUNS = [("sticky", RUN_STICKY, 4, 5), ("rewrite", RUN_REWRITE, 3, 4), ("blockbugs", RUN_BLOCKBUGS, 3, 4), ("dns", RUN_DNS, 4, 5)]
 
 # ---------------------------------------------------------------------------------------------------------------
@@ -281,7 +287,7 @@ def svcb_parse(data):
     return prio, target, params
 
 
-def build_dns(answers, r):
+def build_dns(answers, r, addech=False):
     from mitmproxy import dns
     from mitmproxy.test import tflow, tutils
 
@@ -314,8 +320,22 @@ def build_dns(answers, r):
     extra = []
     if r.random() < 0.3:      # the additional section is outside the statement (see README): it must stay as it is
         extra.append(dns.ResourceRecord("svc.corp.test", dns.types.A, dns.classes.IN, 60, b"\x0a\x00\x00\x01"))
+    if addech:                # observation only: an HTTPS record of an alias target in the additional section
+        extra.append(dns.ResourceRecord("pool.shop.example", dns.types.HTTPS, dns.classes.IN, 60,
+                                        svcb_pack(1, "", [(1, b"\x02h2"), (5, b"additional-ech-config")])))
     f = tflow.tdnsflow(resp=tutils.tdnsresp(answers=rrs, additionals=extra))
     return f
+
+
+def additional_ech(f):
+    for rr in f.response.additionals:
+        if rr.type == 65:
+            try:
+                if any(k == 5 for k, _v in svcb_parse(rr.data)[2]):
+                    return True
+            except Exception:
+                pass
+    return False
 
 
 def dns_view(f):
@@ -376,7 +396,7 @@ class Check(core.PropertyCheck):
         "h2c_stripped", "h2c_no_connection", "h2c_no_settings", "other_upgrade_kept", "preface_killed",
         "preface_not_killable", "pri_but_no_preface",
         "ech_stripped", "ech_left_off", "ech_two_records", "dns_other_record", "alpn_mixed_http3_off",
-        "alpn_only_h3_http3_off", "alpn_h3_http3_on", "obs:h3_removed",
+        "alpn_only_h3_http3_off", "alpn_h3_http3_on", "obs:h3_removed", "obs:additional_section_ech_kept",
     )
     REQUIRED_ACTIONS = ()      # checked over all runs together in scenarios(): no single run takes every action
     ACTIONS = ("SetBool", "SetSticky", "SetBlockList", "Arrive", "BlockListRequest", "AntiCacheRequest",
@@ -407,6 +427,8 @@ class Check(core.PropertyCheck):
         for name, consts, q, t in RUNS:
             out.append(ctx.model_check(self.MODEL, dict(consts, MaxOps=q if ctx.quick else t), dump=True, invariants=inv,
                                        view="View", tag="_" + name))
+        if not ctx.quick:
+            out.append(ctx.model_check(self.MODEL, dict(RUN_BIG, MaxOps=3), dump=False, invariants=inv, view="View", tag="_big"))
         return out
 
     # ---- scenarios ------------------------------------------------------------------------------------------------
@@ -431,9 +453,10 @@ class Check(core.PropertyCheck):
 
     def scenarios(self, ctx, models):
         taken = {}
-        for m, (name, consts, _q, _t) in zip(models, RUNS):
+        for m in models:
             for a, n in m.coverage.items():
                 taken[a] = taken.get(a, 0) + n
+        for m, (name, consts, _q, _t) in zip(models, RUNS):
             g = m.graph
             behs = g.edge_cover(ctx.rng, max_len=40, tail=6)
             if ctx.quick and len(behs) > 1500:
@@ -444,6 +467,10 @@ class Check(core.PropertyCheck):
         for a in self.ACTIONS:
             if not taken.get(a):
                 raise core.MachineryError(f"vacuous model runs: action {a} never taken")
+        if not ctx.quick:
+            behs, _r = ctx.simulate(self.MODEL, dict(RUN_BIG, MaxOps=10), num=3000, depth=60)
+            for b in behs:
+                yield core.Scenario({"ops": self.ops_of(b, RUN_BIG, ctx.rng)}, predicted=core.predicted_events(b), source="simulate")
         rng = random.Random(ctx.seed + 707)
         for _ in range(400 if ctx.quick else 6000):
             yield core.Scenario({"ops": self.random_ops(rng)}, source="random")
@@ -487,7 +514,7 @@ class Check(core.PropertyCheck):
                         if rng.random() < 0.7:
                             alpn = rng.sample(["h2", "h3", "h3-29", "http/1.1", "h3-27", "h2c", "h33"], rng.randint(1, 4))
                         ans.append(H(rng.random() < 0.6, alpn))
-                ops.append(["dns", ans, salt])
+                ops.append(["dns", ans, rng.random() < 0.2, salt])
             else:
                 meth = rng.choice(["GET", "GET", "POST", "PRI"])
                 pri = meth == "PRI" and rng.random() < 0.7
@@ -561,9 +588,9 @@ class Check(core.PropertyCheck):
                     if pos >= len(chain):
                         cur = None
                 elif kind == "dns":
-                    f = build_dns(op[1], r)
+                    f = build_dns(op[1], r, addech=len(op) > 3 and bool(op[2]))
                     pre, msg0 = dns_view(f)
-                    trace.append({"k": "dns", "ans": [dict(v, rest=1) for v, _b in pre], "msg": 1})
+                    trace.append({"k": "dns", "ans": [dict(v, rest=1) for v, _b in pre], "msg": 1, "addech": additional_ech(f)})
                     exc = ""
                     try:
                         am.invoke_addon_sync(objs["StripDnsHttpsRecords"], DnsResponseHook(f))
@@ -574,7 +601,7 @@ class Check(core.PropertyCheck):
                     except Exception:          # the hook left RDATA our reader cannot read
                         post, msg1 = [({"t": "unreadable", "ech": False, "hasalpn": False, "alpn": []}, "") for _x in pre], msg0
                     ans = [dict(v, rest=1 if i < len(pre) and b == pre[i][1] else 2) for i, (v, b) in enumerate(post)]
-                    trace.append({"k": "dnshook", "ans": ans, "msg": 1 if msg1 == msg0 else 2, "exc": exc})
+                    trace.append({"k": "dnshook", "ans": ans, "msg": 1 if msg1 == msg0 else 2, "addech": additional_ech(f), "exc": exc})
         finally:
             try:
                 tctx.master._legacy_log_events.uninstall()
